@@ -11,7 +11,9 @@
     pub   <dedup 0|1> <conn> <ch> <msg>-> C <dels> S <dels>           del = conn,pattern-hex or conn,_
     info  <conn>                       -> C <0|1> <chans> <pats> S <chans> <pats>
     chcount <ch>                       -> <n>
-    recv  <dedup 0|1> <conn>           -> C <events> S <events>       stream read by <conn> over the whole history
+    recv  <dedup 0|1> <idle 0|1> <conn>-> C <events> S <events>       stream read by <conn> over the whole history
+                                          (idle 1 = the handlers confirm (P)UNSUBSCRIBE of a client holding nothing;
+                                           a nil name is printed `_`)
     glob  <pattern> <text>             -> C <0|1> S <0|1>
     globs <pattern> <hexlist of texts> -> C <0101…> S <0101…>         one digit per text
 -/
@@ -43,6 +45,7 @@ def kindCh : Kind → String
 
 def showEvent : Event → String
   | .ack a => s!"a:{kindCh a.kind}:{b01 a.un}:{toHex a.name}:{a.count}"
+  | .ackNil k n => s!"a:{kindCh k}:1:_:{n}"
   | .message ch m => s!"m:{toHex ch}:{toHex m}"
   | .pmessage p ch m => s!"p:{toHex p}:{toHex ch}:{toHex m}"
   | .published n => s!"n:{n}"
@@ -99,12 +102,12 @@ def step (s : Sess) (ws : List String) : Sess × String :=
     match ofHex ch with
     | some ch => (s, s!"{((aget s.code.channels ch).getD []).length}")
     | none => (s, "bad-op")
-  | ["recv", d, c] =>
-    match readBool d, c.toNat? with
-    | some d, some c =>
+  | ["recv", d, i, c] =>
+    match readBool d, readBool i, c.toNat? with
+    | some d, some i, some c =>
       let ops := s.hist.reverse
-      (s, s!"C {showEvents (received (Code.log d {} ops) c)} S {showEvents (received (Spec.log [] ops) c)}")
-    | _, _ => (s, "bad-op")
+      (s, s!"C {showEvents (received (Code.log d i {} ops) c)} S {showEvents (received (Spec.log [] ops) c)}")
+    | _, _, _ => (s, "bad-op")
   | ["glob", p, t] =>
     match ofHex p, ofHex t with
     | some p, some t => (s, s!"C {b01 (globBytes p t)} S {b01 (Spec.glob p t)}")
